@@ -177,8 +177,10 @@ def run(chk, w):
     for rid, (k, inst) in reads.items():
         c = case_of[rid]
         # several macro names share one value (category bases such as MSG_UBM == MSG_BM_OCC): use the most specific (longest) name
-        label = "/".join(sorted(max(names.get(cv, ["0x%02x" % cv]), key=len) for cv in c[1])) if c else "common"
-        per_case[label].append((k, inst))
+        # case labels that share one body (fall-through / a common helper) are reported per label, so a finding keeps its identity when
+        # two case bodies are merged
+        for label in (sorted(max(names.get(cv, ["0x%02x" % cv]), key=len) for cv in c[1]) if c else ["common"]):
+            per_case[label].append((k, inst))
     for label, lst in sorted(per_case.items()):
         kmax, inst = max(lst, key=lambda x: (x[0] if isinstance(x[0], int) else 99))
         # is there a guard on the length byte (load message[0]) dominating the deepest read?
